@@ -210,7 +210,7 @@ def load_known():
             continue
         if line.startswith('finding:'):
             body = line[len('finding:'):].strip()
-            head, _, text = body.partition('::')
+            head, _, text = body.partition(' :: ')
             parts = dict(kv.split('=', 1) for kv in head.split() if '=' in kv)
             findings[(parts.get('property'), parts.get('key'))] = text.strip()
         elif line.startswith('fixed:'):
